@@ -292,6 +292,12 @@ def config_faults() -> List[Tuple[str, str, Callable[[Dict[str, Any], Path], Opt
         return "no_such_dir"
     add("target-package-path-not-directory", "client", pkg_path_not_dir)
 
+    def include_is_dir(c, r):
+        (r / "include_dir").mkdir()
+        c["files_to_include"] = ["include_dir"]
+        return "include_dir"
+    add("files-to-include-is-directory", "client", include_is_dir)
+
     def include_missing(c, r):
         c["files_to_include"] = ["nope_include.py"]
         return "nope_include.py"
@@ -466,6 +472,11 @@ def valid_worker(case: Dict[str, Any]) -> CaseResult:
             cfg["include_comments"] = True
         elif label == "headers-literal":
             cfg["remote_schema_headers"] = {"X-Plain": "value"}
+        elif label == "headers-env":
+            os.environ["VF_C17_TOKEN"] = "resolved-secret"
+            cfg["remote_schema_headers"] = {"Authorization": "$VF_C17_TOKEN", "X-Plain": "value"}
+            cfg["scalars"] = {"When": {"type": "str"}}
+            cfg["files_to_include"] = []
         elif label == "custom-base-client":
             (root / "my_base.py").write_text(open(core.REPO / "ariadne_codegen/client_generators/dependencies/async_base_client.py").read().replace("class AsyncBaseClient", "class MyBaseClient"))
             cfg.update({"base_client_file_path": "my_base.py", "base_client_name": "MyBaseClient"})
@@ -535,7 +546,7 @@ def all_cases(tier: str) -> List[Dict[str, Any]]:
     return cases
 
 
-VALID = [("unknown-keys", "client"), ("unknown-keys", "graphqlschema"), ("deprecated-section", "client"), ("bool-comments", "client"), ("headers-literal", "client"),
+VALID = [("headers-env", "client"), ("headers-env", "graphqlschema"), ("unknown-keys", "client"), ("unknown-keys", "graphqlschema"), ("deprecated-section", "client"), ("bool-comments", "client"), ("headers-literal", "client"),
          ("custom-base-client", "client"), ("all-names-custom", "client"), ("unused-fragment", "client"), ("scalar-full", "client"), ("target-upper-ext", "graphqlschema"),
          ("plain", "client"), ("plain", "graphqlschema")]
 
